@@ -21,6 +21,11 @@ pub enum Kind {
     Tee1,
     Tee2,
     Tee3,
+    /// unary tee whose single arm is written with an explicit index: `t[0] -> ..`
+    Tee1P,
+    /// unary union whose single arm is written `-> [0]x` / `-> [1]x`
+    Union1P0,
+    Union1P1,
     Join,
     Diff,
     Part,
@@ -65,6 +70,8 @@ impl Kind {
         match self {
             Join => Some(["0", "1"][slot]),
             Diff => Some(["pos", "neg"][slot]),
+            Union1P0 => Some("0"),
+            Union1P1 => Some("1"),
             _ => None,
         }
     }
@@ -74,6 +81,7 @@ impl Kind {
             Unzip => Some(["0", "1"][slot]),
             Demux => Some(["A", "B"][slot]),
             State => Some(["items", "state"][slot]),
+            Tee1P => Some("0"),
             _ => None,
         }
     }
@@ -99,8 +107,8 @@ impl Kind {
             Sink => "for_each",
             Map => "map",
             Fold => "fold",
-            Union1 | Union2 | Union3 => "union",
-            Tee1 | Tee2 | Tee3 => "tee",
+            Union1 | Union2 | Union3 | Union1P0 | Union1P1 => "union",
+            Tee1 | Tee2 | Tee3 | Tee1P => "tee",
             Join => "join",
             Diff => "difference",
             Part => "partition",
@@ -785,14 +793,14 @@ fn f_loop_refs(ks: &[Kind]) -> bool {
         && count(ks, |k| k == Map) <= 1
 }
 fn f_unary(ks: &[Kind]) -> bool {
-    let u = count(ks, |k| matches!(k, Tee1 | Union1));
+    let u = count(ks, |k| matches!(k, Tee1 | Union1 | Tee1P | Union1P0 | Union1P1));
     (1..=3).contains(&u)
-        && count(ks, |k| !k.is_base() && !matches!(k, Tee1 | Union1)) <= 1
+        && count(ks, |k| !k.is_base() && !matches!(k, Tee1 | Union1 | Tee1P | Union1P0 | Union1P1)) <= 1
         && count(ks, |k| k == Src) >= 1
 }
 
 const MULTI: &[Kind] = &[
-    Diff, Union3, Tee3, Union1, Tee1, Part, Unzip, Demux, State, DeferTick, DeferTickLazy, Rfb, Fold,
+    Diff, Union3, Tee3, Union1, Tee1, Tee1P, Union1P0, Union1P1, Part, Unzip, Demux, State, DeferTick, DeferTickLazy, Rfb, Fold,
 ];
 
 pub fn families(thorough: bool) -> Vec<Family> {
@@ -801,7 +809,9 @@ pub fn families(thorough: bool) -> Vec<Family> {
     with_multi.extend_from_slice(MULTI);
     let hoffs = [HoffVec0, HoffVec1, HoffSing0, HoffSing1, HoffOpt0, HoffOpt1];
     let loops_alpha = vec![Src, Sink, Map, Union2, Tee2, Batch0, Batch1, BatchLazy0, AllIter, DeferTick, DeferTickLazy];
-    let unary_alpha = vec![Src, Sink, Map, Join, Tee2, Union2, Tee1, Union1, Part, Diff, HoffVec1, DeferTick, Batch0];
+    let unary_alpha = vec![
+        Src, Sink, Map, Join, Tee2, Union2, Tee1, Union1, Tee1P, Union1P0, Union1P1, Part, Diff, HoffVec1, DeferTick, Batch0,
+    ];
     let fam = |name, alphabet: Vec<Kind>, n_min, n_max, max_refs, filter, cycles| Family {
         name,
         alphabet,
